@@ -333,6 +333,10 @@ pub fn inject(case: &FaultCase) -> Option<Faulted> {
                 ("b:00,a:z0", "checksum:non-hex"),
                 ("a:00,b,c:11", "checksum:no-colon"),
                 ("m:00,a:1,z:22", "checksum:odd-digits"),
+                ("a:0,b:1", "checksum:odd-digits"),
+                ("md5:0,sha1:abc", "checksum:odd-digits"),
+                ("a:0,b:abc,c:00,d:1", "checksum:odd-digits"),
+                ("sha3-256:00,sha3:0", "checksum:odd-digits"),
             ];
             let (value, cell) = BAD[ch.next(BAD.len())];
             sp.items.retain(|it| !it.0.eq_ignore_ascii_case("checksum"));
